@@ -32,6 +32,14 @@ def init_text(init):
     raise ValueError(init)
 
 
+USEQ = False       # unit["useq"]: enumeration values used as initial values are written with their type prefix
+
+
+def enumq(ty, v):
+    """the spelling of enumeration value v of type ty where it is USED (LEVEL2 is an alias of LEVEL)"""
+    return ("LEVEL" if ty in ("LEVEL", "LEVEL2") else ty) + "#" + v if USEQ else v
+
+
 def type_decl(o, t):
     n = t["n"]
     o.w("TYPE\n  ").w(n, ("type", n)).w(" : ")
@@ -44,15 +52,15 @@ def type_decl(o, t):
             if (i + 1) in t.get("qual", []):
                 o.w(n + "#")
             o.w(v, ("enumvalue", n, v, i))
-        o.w(") := ").w(t["def"], ("enumdefault", n)).w(";\n")
+        o.w(") := ").w(enumq(n, t["def"]), ("enumdefault", n)).w(";\n")
     elif k == "alias":
-        o.w(t["base"], ("aliasbase", n)).w(" := ").w(t["def"], ("aliasdefault", n)).w(";\n")
+        o.w(t["base"], ("aliasbase", n)).w(" := ").w(enumq(t["base"], t["def"]), ("aliasdefault", n)).w(";\n")
     elif k == "struct":
         o.w("STRUCT\n")
         for i, e in enumerate(t["elems"]):
             o.w("    ").w(e["n"], ("elem", n, e["n"], i)).w(" : ").w(e["ty"], ("elemtype", n, e["n"]))
             if e["init"][0] != "-":
-                o.w(" := ").w(e["init"][1], ("eleminit", n, e["n"]))
+                o.w(" := ").w(enumq(e["ty"], e["init"][1]) if e["init"][0] == "enum" else e["init"][1], ("eleminit", n, e["n"]))
             o.w(";\n")
         o.w("  END_STRUCT;\n")
     elif k == "subrange":
@@ -75,7 +83,7 @@ def var_blocks(o, pname, vs, indent="  "):
         for v in vs[i:j]:
             o.w(indent + "  ").w(v["n"], ("vardecl", pname, v["n"])).w(" : ").w(v["ty"], ("vartype", pname, v["n"]))
             if v["init"][0] != "-":
-                o.w(" := ").w(v["init"][1], ("varinit", pname, v["n"]))
+                o.w(" := ").w(enumq(v["ty"], v["init"][1]) if v["init"][0] == "enum" else v["init"][1], ("varinit", pname, v["n"]))
             o.w(";\n")
         o.w(indent + "END_VAR\n")
         i = j
@@ -220,6 +228,8 @@ def config_decl(o, c, resource="RES"):
 
 def decl_texts(unit):
     """one (name, text, sites) per top-level declaration, in the unit's order"""
+    global USEQ
+    USEQ = bool(unit.get("useq"))
     out = []
     for t in unit["types"]:
         o = Out()
